@@ -203,6 +203,34 @@ func TestC17(t *testing.T) {
 				}
 			}
 		}
+		// the same password for two different users in direct succession (the verdict depends on the
+		// user name as well: nothing remembered from the previous request may decide the next one)
+		for _, pw := range pws {
+			for _, pair := range [][2]string{{"bob", "correcthorse"}, {"correcthorse", "bob"}, {"bob", "bob"}} {
+				lib.RemoveUser("bob")
+				lib.RemoveUser("correcthorse")
+				for k, un := range pair {
+					if k == 1 && pair[0] == pair[1] {
+						lib.RemoveUser(un)
+					}
+					want := refPolicy(cond, pw, un)
+					acc := st.Add(un, pw, false) == nil
+					stored, _, _, _, _ := lib.Authenticate(un, pw)
+					ev.Add("evaluations", 1)
+					ev.Distinct(fmt.Sprintf("%s|pair|%d|%v|%v", cond, k, want, acc))
+					if acc != want || stored != want {
+						kind := "weak-password-accepted:in-succession"
+						if want {
+							kind = "good-password-refused:in-succession"
+						}
+						ev.Violation(kind, fmt.Sprintf("[policy %q] add(%s, %s) directly after add(%s, same password): accepted=%v stored=%v, the policy says %v", cond, un, verifx.Q(pw), pair[0], acc, stored, want),
+							map[string]any{"policy": cond, "users": pair, "password": pw})
+					}
+				}
+			}
+		}
+		lib.RemoveUser("bob")
+		lib.RemoveUser("correcthorse")
 		// agent Init on an empty store + CLI paths (one user name)
 		if bin != "" {
 			for _, pw := range pws {
